@@ -225,4 +225,53 @@ theorem inv_reset (O : TrieOps T) (hre : ∀ t, O.reopen (O.rootOf t) = t) (h32 
     exact fin (kvDel c2 validatedKey)
       (fun h' => by simp only [kvGet_kvDel, rootKey_ne_validated, if_false]) (keysNodup_kvDel _ _ hn2)
 
+theorem inv_validated (O : TrieOps T) (h32 : ∀ t, (O.rootOf t).length = 32) (s : St T) (hi : Inv O s)
+    (sr : Rec) (v : Bool) (hidx : sr.index < 2 ^ 32) :
+    Inv O { s with m := addStateRoot s.m sr v } := by
+  unfold addStateRoot
+  cases v with
+  | false => exact hi
+  | true =>
+    simp only [Bool.not_true, Bool.false_eq_true, if_false]
+    cases hg : getStateRoot s.m sr.index with
+    | none => exact hi
+    | some loc =>
+      simp only
+      split
+      · exact hi
+      · rename_i hroot
+        split
+        · exact hi
+        · -- the record of sr.index exists, so sr.index is a height of the chain
+          have hlt : sr.index < s.chain.length := by
+            by_cases hlt : sr.index < s.chain.length
+            · exact hlt
+            · exfalso
+              have := hi.above sr.index (by omega) hidx
+              unfold getStateRoot at hg
+              rw [this] at hg; cases hg
+          obtain ⟨w, hw⟩ := getStateRoot_of_inv O h32 s hi sr.index hlt
+          rw [hw] at hg
+          simp only [Option.some.injEq] at hg
+          have hsr : sr.root = O.rootOf (trieAt O.M (s.chain.take (sr.index + 1))) := by
+            have : loc.root = sr.root := by simpa using hroot
+            rw [← this, ← hg]
+          refine ⟨keysNodup_kvPut _ _ _ (keysNodup_kvPut _ _ _ hi.nodup), hi.len, hi.mpt, hi.cur, ?_, ?_⟩
+          · intro h hh
+            have hh' : h < s.chain.length := hh
+            show ∃ w, kvGet (kvPut (kvPut s.m.store (rootKey sr.index) (encRec sr)) validatedKey (le32 sr.index)) (rootKey h) = _
+            rw [kvGet_kvPut, if_neg (rootKey_ne_validated h), kvGet_kvPut]
+            by_cases he : h = sr.index
+            · subst he
+              refine ⟨sr.wit, ?_⟩
+              rw [if_pos rfl, ← hsr]
+            · rw [if_neg (rootKey_ne h sr.index (by have := hi.len; omega) hidx he)]
+              exact hi.recs h hh'
+          · intro h hh h32'
+            have hh' : s.chain.length ≤ h := hh
+            show kvGet (kvPut (kvPut s.m.store (rootKey sr.index) (encRec sr)) validatedKey (le32 sr.index)) (rootKey h) = none
+            rw [kvGet_kvPut, if_neg (rootKey_ne_validated h), kvGet_kvPut,
+              if_neg (rootKey_ne h sr.index h32' hidx (by omega))]
+            exact hi.above h hh' h32'
+
 end NeoModel.StateCommit.Roots
